@@ -124,6 +124,39 @@ def programs(tier, mode):
                     p['clocks'][cc] = CLOCKSPEC[cc]
                 p['conductor'] = [pc, t0, cc, at, v]
                 out.append(p)
+    # the same with bystander routines of other clocks pending in between
+    # (NRT: one global queue re-keys the player when the tempo changes; the
+    # bystanders must still run in time order and at their own times)
+    if mode == 'nrt':
+        by = [('s', [0.5] * 6), ('a', [0.75] * 4), ('s', [1.25, 0.25, 1.0]),
+              ('th', [0.25, 0.5, 0.25]), ('a', [2.0, 0.5])]
+        import itertools
+        for pc, t0 in (('t1', 1.0), ('t2', 2.0)):
+            for cc in ('s', pc):
+                for at, v in ((1.5, 2.0 * t0), (0.75, 0.5 * t0),
+                              (1.25, 4.0 * t0), (0.5, 0.25 * t0),
+                              (1.0, 0.125 * t0)):
+                    for k in (2, 3, 4):
+                        for sel in itertools.combinations(range(len(by)), k):
+                            for first in (True, False):
+                                p = make_prog((pc, [1.0, 1.0, 1.0]))
+                                p['routines']['k0'] = [['yield', at],
+                                                       ['tempo', pc, v]]
+                                plays = [['play', 'k0', cc, 0]]
+                                for j in sel:
+                                    bc, ys = by[j]
+                                    p['routines'][f'x{j}'] = \
+                                        [['yield', y] for y in ys]
+                                    plays.append(['play', f'x{j}', bc, 0])
+                                    p['clocks'][bc] = CLOCKSPEC[bc]
+                                if cc not in p['clocks']:
+                                    p['clocks'][cc] = CLOCKSPEC[cc]
+                                m = p['actors']['main']
+                                p['actors']['main'] = (m + plays) if first \
+                                    else (plays + m)
+                                p['conductor'] = [pc, t0, cc, at, v]
+                                p['horizon'] = 40.0
+                                out.append(p)
     for c0 in tops:
         for c1 in tops:
             for s1 in ([0.25, 0.25, 0.5], [0.5, 0.5]):
@@ -139,13 +172,16 @@ def programs(tier, mode):
 def expected(prog):
     """{rid: [(seconds, beats), ...]} - the k-th entry is the logical time at
     the k-th resumption (k=0 is the start).  Exact dyadic arithmetic."""
-    if prog.get('conductor'):
-        return expected_conducted(prog)
     out = {}
     starts = {}     # rid -> (clock id, start seconds)
     for op in prog['actors']['main']:
         if op[0] == 'play':
             starts[op[1]] = (op[2], 0.0)
+    if prog.get('conductor'):
+        out = expected_conducted(prog)
+        for rid in out:
+            starts.pop(rid)     # bystanders are on clocks that do not change
+        assert all(c != prog['conductor'][0] for c, _ in starts.values())
     order = list(starts)
     while order:
         rid = order.pop(0)
